@@ -928,3 +928,808 @@ Proof.
   cbv zeta. split; [|repeat split; vm_compute; reflexivity].
   unfold ab_wf. cbn. repeat split; [repeat constructor; cbn; lia|lia].
 Qed.
+
+(* ====================================================================== *)
+(* B5. get side: only the selected bytes of the caller's buffer change     *)
+(* ====================================================================== *)
+Theorem overwrite_length : forall buf off bs, length (overwrite buf off bs) = length buf.
+Proof.
+  induction buf as [|b r IH]; intros off bs; cbn [overwrite]; [reflexivity|].
+  destruct (off >? 0).
+  - cbn [length]. now rewrite IH.
+  - destruct bs as [|x bs']; [reflexivity|]. cbn [length]. now rewrite IH.
+Qed.
+
+Theorem scatter_elems_length : forall pos buf el data, length (scatter_elems buf el pos data) = length buf.
+Proof.
+  induction pos as [|p r IH]; intros buf el data; cbn [scatter_elems]; [reflexivity|].
+  now rewrite IH, overwrite_length.
+Qed.
+
+Lemma Zlen_overwrite buf off bs : Zlen (overwrite buf off bs) = Zlen buf.
+Proof. unfold Zlen. now rewrite overwrite_length. Qed.
+
+Lemma znth_overwrite_out : forall buf off bs x d, 0 <= off -> ~ (off <= x < off + Zlen bs) ->
+  znth (overwrite buf off bs) x d = znth buf x d.
+Proof.
+  induction buf as [|b r IH]; intros off bs x d Hoff Hx; cbn [overwrite]; [reflexivity|].
+  destruct (off >? 0) eqn:Eo.
+  - destruct (Z.eq_dec x 0) as [->|Hz]; [reflexivity|].
+    rewrite !znth_cons_nz by lia. apply IH; lia.
+  - destruct bs as [|y bs']; [reflexivity|].
+    rewrite Zlen_cons in Hx. pose proof (Zlen_nonneg bs') as Hnn.
+    assert (Hz : x <> 0) by lia.
+    rewrite !znth_cons_nz by lia. apply IH; lia.
+Qed.
+
+Lemma znth_overwrite_in : forall buf off bs x d, 0 <= off -> off <= x < off + Zlen bs -> x < Zlen buf ->
+  znth (overwrite buf off bs) x d = znth bs (x - off) d.
+Proof.
+  induction buf as [|b r IH]; intros off bs x d Hoff Hx Hb.
+  - rewrite Zlen_nil in Hb. lia.
+  - rewrite Zlen_cons in Hb. cbn [overwrite]. destruct (off >? 0) eqn:Eo.
+    + rewrite znth_cons_nz by lia. rewrite IH by lia. f_equal. lia.
+    + assert (off = 0) by lia. subst off.
+      destruct bs as [|y bs']; [rewrite Zlen_nil in Hx; lia|]. rewrite Zlen_cons in Hx.
+      destruct (Z.eq_dec x 0) as [->|Hz]; [reflexivity|].
+      rewrite znth_cons_nz by lia. rewrite IH by lia.
+      rewrite (znth_cons_nz y bs' (x - 0)) by lia. f_equal. lia.
+Qed.
+
+Lemma Zlen_zfirstn_le {A} n (l : list A) : 0 <= n -> Zlen (zfirstn n l) <= n.
+Proof. intros Hn. rewrite Zlen_zfirstn. lia. Qed.
+
+Lemma covered_cons_not el p r x : ~ covered el (p :: r) x -> ~ (p * el <= x < p * el + el) /\ ~ covered el r x.
+Proof.
+  intros H. split.
+  - intros Hp. apply H. exists p. split; [now left|exact Hp].
+  - intros (q & Hq & Hr). apply H. exists q. split; [now right|exact Hr].
+Qed.
+
+(* needs the positions to be non-negative: a negative offset is clipped to 0 by `overwrite`
+   (the C code would write before the buffer) *)
+Theorem scatter_elems_frame : forall pos buf el data x d, 0 < el -> 0 <= x ->
+  Forall (fun p => 0 <= p) pos ->
+  ~ covered el pos x -> znth (scatter_elems buf el pos data) x d = znth buf x d.
+Proof.
+  induction pos as [|p r IH]; intros buf el data x d Hel Hx Hpos Hnc; cbn [scatter_elems]; [reflexivity|].
+  inversion Hpos as [|p' r' Hp Hr]; subst.
+  destruct (covered_cons_not el p r x Hnc) as [Hnp Hnr].
+  rewrite IH by assumption.
+  apply znth_overwrite_out; [nia|].
+  pose proof (Zlen_zfirstn_le el data ltac:(lia)) as Hle.
+  pose proof (Zlen_nonneg (zfirstn el data)) as Hnn. lia.
+Qed.
+
+(* without the non-negativity hypothesis the frame property is false *)
+Example scatter_elems_frame_needs_nonneg :
+  ~ covered 1 [-1] 0 /\ znth (scatter_elems [9; 9] 1 [-1] [7]) 0 0 = 7 /\ znth [9; 9] 0 0 = 9.
+Proof.
+  split; [|split; vm_compute; reflexivity].
+  intros (p & [Hp|[]] & Hr). subst p. lia.
+Qed.
+
+Theorem unpack_xbuf_length : forall contig impos btpos el nelems buf idata tmp,
+  length (unpack_xbuf contig impos btpos el nelems buf idata tmp) = length buf.
+Proof.
+  intros contig impos btpos el nelems buf idata tmp. unfold unpack_xbuf.
+  destruct impos as [ip|]; destruct contig;
+    rewrite ?scatter_elems_length, ?overwrite_length; reflexivity.
+Qed.
+
+Lemma not_covered_range el nelems x : 0 < el -> 0 <= nelems -> 0 <= x ->
+  ~ covered el (zrange 0 nelems) x -> nelems * el <= x.
+Proof.
+  intros Hel Hn Hx Hnc.
+  destruct (Z.le_gt_cases (nelems * el) x) as [Hle|Hgt]; [exact Hle|]. exfalso. apply Hnc.
+  pose proof (Z.div_mod x el ltac:(lia)) as Hdm.
+  pose proof (Z.mod_pos_bound x el Hel) as Hm.
+  pose proof (Z.div_pos x el Hx Hel) as Hq.
+  exists (x / el). split.
+  - apply In_zrange. split; [lia|]. nia.
+  - nia.
+Qed.
+
+Theorem get_writes_only_selected : forall contig impos btpos el nelems buf idata tmp x d,
+  0 < el -> 0 <= nelems -> 0 <= x ->
+  Forall (fun p => 0 <= p) (selected_positions contig impos btpos nelems) ->
+  ~ covered el (selected_positions contig impos btpos nelems) x ->
+  znth (unpack_xbuf contig impos btpos el nelems buf idata tmp) x d = znth buf x d.
+Proof.
+  intros contig impos btpos el nelems buf idata tmp x d Hel Hn Hx Hpos Hnc.
+  unfold unpack_xbuf, selected_positions in *.
+  destruct impos as [ip|]; destruct contig.
+  - now apply scatter_elems_frame.
+  - now apply scatter_elems_frame.
+  - pose proof (not_covered_range el nelems x Hel Hn Hx Hnc) as Hge.
+    apply znth_overwrite_out; [lia|].
+    pose proof (Zlen_zfirstn_le (nelems * el) idata ltac:(nia)) as Hle. lia.
+  - now apply scatter_elems_frame.
+Qed.
+
+Theorem scatter_elems_content : forall pos buf el data d,
+  NoDup pos -> Forall (fun p => 0 <= p /\ (p + 1) * el <= Zlen buf) pos ->
+  Zlen data = Zlen pos * el -> 0 < el ->
+  forall k, 0 <= k < Zlen pos -> forall i, 0 <= i < el ->
+  znth (scatter_elems buf el pos data) (znth pos k 0 * el + i) d = znth data (k * el + i) d.
+Proof.
+  induction pos as [|p r IH]; intros buf el data d Hnd Hb Hlen Hel k Hk i Hi.
+  - rewrite Zlen_nil in Hk. lia.
+  - rewrite Zlen_cons in Hk, Hlen.
+    inversion Hnd as [|p' r' Hnotin Hnd']; subst.
+    inversion Hb as [|p' r' [Hp0 Hpb] Hb']; subst.
+    cbn [scatter_elems]. pose proof (Zlen_nonneg r) as Hr.
+    assert (Hf : Zlen (zfirstn el data) = el) by (rewrite Zlen_zfirstn; nia).
+    destruct (Z.eq_dec k 0) as [->|Hk0].
+    + rewrite znth_cons_0.
+      assert (Hpe : 0 <= p * el) by nia.
+      assert (Hin : p * el + i < Zlen buf) by nia.
+      rewrite scatter_elems_frame.
+      * rewrite znth_overwrite_in by (rewrite ?Hf; lia).
+        rewrite znth_zfirstn by lia. f_equal. lia.
+      * exact Hel.
+      * lia.
+      * eapply Forall_impl; [|exact Hb']. cbn beta. intros q [Hq _]. exact Hq.
+      * intros (q & Hq & Hrange). assert (q <> p) by (intros ->; contradiction). nia.
+    + rewrite (znth_cons_nz p r k) by lia.
+      rewrite (IH (overwrite buf (p * el) (zfirstn el data)) el (zskipn el data) d).
+      * rewrite znth_zskipn by nia. f_equal. lia.
+      * exact Hnd'.
+      * rewrite Zlen_overwrite. exact Hb'.
+      * rewrite Zlen_zskipn. nia.
+      * exact Hel.
+      * lia.
+      * exact Hi.
+Qed.
+
+Example scatter_elems_ex :
+  let buf := [90;91;92;93;94;95;96;97;98;99] in
+  NoDup [3;0] /\ Forall (fun p => 0 <= p /\ (p + 1) * 2 <= Zlen buf) [3;0] /\
+  scatter_elems buf 2 [3;0] [1;2;3;4] = [3;4;92;93;94;95;1;2;98;99] /\
+  ~ covered 2 [3;0] 5 /\
+  unpack_xbuf false (Some [1;0]) [3;0] 2 2 buf [1;2;3;4] [0;0;0;0] = [1;2;92;93;94;95;3;4;98;99].
+Proof.
+  cbv zeta. split; [|split; [|split; [|split]]].
+  - repeat constructor; cbn [In]; lia.
+  - repeat constructor; vm_compute; discriminate.
+  - vm_compute; reflexivity.
+  - intros (p & [Hp|[Hp|[]]] & Hr); subst p; lia.
+  - vm_compute; reflexivity.
+Qed.
+
+(* ====================================================================== *)
+(* B3. every exit swaps back exactly the flagged buffers                   *)
+(* ====================================================================== *)
+Definition put_events (pl : list lead) : list event :=
+  flat_map (fun l => (if l_swapbuf l then [EvSwapBack (l_tag l)] else []) ++ [EvPutDone (l_tag l)]) pl.
+
+Lemma put_events_in l pl : In l pl ->
+  In (EvPutDone (l_tag l)) (put_events pl) /\ (l_swapbuf l = true -> In (EvSwapBack (l_tag l)) (put_events pl)).
+Proof.
+  intros Hin. unfold put_events. split.
+  - apply in_flat_map. exists l. split; [exact Hin|]. apply in_or_app. right. now left.
+  - intros Hs. apply in_flat_map. exists l. split; [exact Hin|]. rewrite Hs. now left.
+Qed.
+
+Lemma put_events_swap t pl : In (EvSwapBack t) (put_events pl) ->
+  exists l, In l pl /\ l_swapbuf l = true /\ l_tag l = t.
+Proof.
+  unfold put_events. intros H. apply in_flat_map in H. destruct H as (l & Hl & Hin).
+  exists l. split; [exact Hl|].
+  destruct (l_swapbuf l); cbn [app In] in Hin.
+  - destruct Hin as [H|[H|[]]]; [|discriminate H]. inversion H. split; reflexivity.
+  - destruct Hin as [H|[]]. discriminate H.
+Qed.
+
+Lemma compact_leads_fst leads : forall reqs i j,
+  fst (compact_leads leads reqs i j) = filter (fun l => negb (l_to_free l)) leads.
+Proof.
+  induction leads as [|l r IH]; intros reqs i j; cbn [compact_leads filter]; [reflexivity|].
+  destruct (l_to_free l); cbn [negb].
+  - apply IH.
+  - match goal with |- context [compact_leads r ?rq ?a ?b] =>
+      specialize (IH rq a b); destruct (compact_leads r rq a b) as [ls rs] end.
+    cbn [fst] in *. now rewrite IH.
+Qed.
+
+Lemma commit_post_shape st nwl nrl st' ev : commit_post st nwl nrl = (st', ev) ->
+  exists ev2,
+    ev = (if nwl >? 0 then put_events (filter l_to_free (put_lead st)) else []) ++ ev2 /\
+    (forall t, ~ In (EvSwapBack t) ev2) /\
+    put_lead st' = if nwl >? 0 then filter (fun l => negb (l_to_free l)) (put_lead st) else put_lead st.
+Proof.
+  unfold commit_post. fold (put_events (filter l_to_free (put_lead st))).
+  pose proof (compact_leads_fst (put_lead st) (put_reqs st) 0 0) as Hc.
+  destruct (compact_leads (put_lead st) (put_reqs st) 0 0) as [pl pr]. cbn [fst] in Hc.
+  destruct (nwl >? 0); destruct (nrl >? 0).
+  - match goal with |- context [compact_leads ?a ?b 0 0] => destruct (compact_leads a b 0 0) as [gl gr] end.
+    intros H. injection H as Hst Hev. subst st' ev. eexists. split; [reflexivity|]. split; [|exact Hc].
+    intros t Hin. apply in_map_iff in Hin. destruct Hin as (l & Hl & _). discriminate Hl.
+  - intros H. injection H as Hst Hev. subst st' ev. exists []. split; [now rewrite app_nil_r|].
+    split; [intros t []|exact Hc].
+  - match goal with |- context [compact_leads ?a ?b 0 0] => destruct (compact_leads a b 0 0) as [gl gr] end.
+    intros H. injection H as Hst Hev. subst st' ev. eexists. split; [reflexivity|]. split; [|reflexivity].
+    intros t Hin. apply in_map_iff in Hin. destruct Hin as (l & Hl & _). discriminate Hl.
+  - intros H. injection H as Hst Hev. subst st' ev. exists []. split; [reflexivity|].
+    split; [intros t []|reflexivity].
+Qed.
+
+Theorem commit_post_swaps_back : forall st nwl nrl st' ev,
+  commit_post st nwl nrl = (st', ev) -> 0 < nwl ->
+  forall l, In l (put_lead st) -> l_to_free l = true ->
+  In (EvPutDone (l_tag l)) ev /\ (l_swapbuf l = true -> In (EvSwapBack (l_tag l)) ev).
+Proof.
+  intros st nwl nrl st' ev H Hn l Hl Hf.
+  destruct (commit_post_shape _ _ _ _ _ H) as (ev2 & -> & _ & _).
+  replace (nwl >? 0) with true by lia.
+  assert (Hin : In l (filter l_to_free (put_lead st))) by (apply filter_In; now split).
+  destruct (put_events_in l _ Hin) as [H1 H2].
+  split; [|intros Hs]; apply in_or_app; left; auto.
+Qed.
+
+Theorem commit_post_swaps_only_flagged : forall st nwl nrl st' ev t,
+  commit_post st nwl nrl = (st', ev) -> In (EvSwapBack t) ev ->
+  exists l, In l (put_lead st) /\ l_to_free l = true /\ l_swapbuf l = true /\ l_tag l = t.
+Proof.
+  intros st nwl nrl st' ev t H Hin.
+  destruct (commit_post_shape _ _ _ _ _ H) as (ev2 & -> & Hno & _).
+  apply in_app_or in Hin. destruct Hin as [Hin|Hin]; [|now apply Hno in Hin].
+  destruct (nwl >? 0); [|destruct Hin].
+  apply put_events_swap in Hin. destruct Hin as (l & Hl & Hs & Ht).
+  apply filter_In in Hl. destruct Hl as [Hl Hf]. exists l. auto.
+Qed.
+
+(* the statement without `0 < nwl` is false (see commit_post_keeps_unflagged_counterexample) *)
+Theorem commit_post_keeps_unflagged_partial : forall st nwl nrl st' ev,
+  commit_post st nwl nrl = (st', ev) ->
+  forall l, In l (put_lead st') -> In l (put_lead st) /\ (0 < nwl -> l_to_free l = false).
+Proof.
+  intros st nwl nrl st' ev H l Hl.
+  destruct (commit_post_shape _ _ _ _ _ H) as (ev2 & _ & _ & Hpl). rewrite Hpl in Hl.
+  destruct (nwl >? 0) eqn:En.
+  - apply filter_In in Hl. destruct Hl as [Hl Hf]. split; [exact Hl|]. intros _.
+    destruct (l_to_free l); [discriminate Hf|reflexivity].
+  - split; [exact Hl|lia].
+Qed.
+
+Definition ex_cp_st : nbstate :=
+  mkst [ex_lead 0 (-1) 7 true true; ex_lead 2 (-1) 8 false true; ex_lead 4 (-1) 9 true false] []
+       [dummy_req; dummy_req; dummy_req] [] 4 0 None 0 empty_disk.
+
+Example commit_post_ex :
+  snd (commit_post ex_cp_st 2 0) = [EvSwapBack 7; EvPutDone 7; EvPutDone 9] /\
+  put_lead (fst (commit_post ex_cp_st 2 0)) = [ex_lead 2 (-1) 8 false true].
+Proof. split; vm_compute; reflexivity. Qed.
+
+(* with nwl = 0 nothing is processed: a lead that carries NC_REQ_TO_FREE stays in the queue *)
+Example commit_post_keeps_unflagged_counterexample :
+  let l := ex_lead 0 (-1) 7 true true in
+  In l (put_lead (fst (commit_post ex_cp_st 0 0))) /\ l_to_free l = true.
+Proof. split; vm_compute; auto. Qed.
+
+(* ---------- cancel of ALL put requests ---------- *)
+Theorem cancel_all_swaps_back : forall st num_req ids stat0,
+  num_req = NC_PUT_REQ_ALL \/ num_req = NC_REQ_ALL ->
+  put_lead (wr_st (cancel st num_req ids stat0)) = [] /\
+  forall l, In l (put_lead st) ->
+    In (EvPutDone (l_tag l)) (wr_ev (cancel st num_req ids stat0)) /\
+    (l_swapbuf l = true -> In (EvSwapBack (l_tag l)) (wr_ev (cancel st num_req ids stat0))).
+Proof.
+  intros st num_req ids stat0 Hn. unfold NC_PUT_REQ_ALL, NC_REQ_ALL in Hn.
+  unfold cancel. fold (put_events (put_lead st)).
+  replace (num_req =? 0) with false by lia.
+  replace (num_req <? NC_PUT_REQ_ALL) with false by (unfold NC_PUT_REQ_ALL; lia).
+  replace (num_req <? 0) with true by lia.
+  replace ((num_req =? NC_PUT_REQ_ALL) || (num_req =? NC_REQ_ALL)) with true
+    by (unfold NC_PUT_REQ_ALL, NC_REQ_ALL; lia).
+  cbn [wr_st wr_ev]. split; [reflexivity|].
+  intros l Hl. destruct (put_events_in l _ Hl) as [H1 H2].
+  split; [|intros Hs]; apply in_or_app; right; auto.
+Qed.
+
+Theorem cancel_all_swaps_only_flagged : forall st num_req ids stat0 t,
+  num_req < 0 -> In (EvSwapBack t) (wr_ev (cancel st num_req ids stat0)) ->
+  (num_req = NC_PUT_REQ_ALL \/ num_req = NC_REQ_ALL) /\
+  exists l, In l (put_lead st) /\ l_swapbuf l = true /\ l_tag l = t.
+Proof.
+  intros st num_req ids stat0 t Hn. unfold cancel. fold (put_events (put_lead st)).
+  replace (num_req =? 0) with false by lia.
+  destruct (num_req <? NC_PUT_REQ_ALL); [intros []|].
+  replace (num_req <? 0) with true by lia.
+  cbn [wr_ev]. intros Hin. apply in_app_or in Hin. destruct Hin as [Hin|Hin].
+  - destruct ((num_req =? NC_GET_REQ_ALL) || (num_req =? NC_REQ_ALL)); [|destruct Hin].
+    apply in_map_iff in Hin. destruct Hin as (l & Hl & _). discriminate Hl.
+  - destruct ((num_req =? NC_PUT_REQ_ALL) || (num_req =? NC_REQ_ALL)) eqn:Ecp; [|destruct Hin].
+    split; [lia|]. now apply put_events_swap.
+Qed.
+
+Theorem cancel_all_get_keeps_puts : forall st ids stat0 t,
+  put_lead (wr_st (cancel st NC_GET_REQ_ALL ids stat0)) = put_lead st /\
+  ~ In (EvSwapBack t) (wr_ev (cancel st NC_GET_REQ_ALL ids stat0)).
+Proof.
+  intros st ids stat0 t. split; [reflexivity|].
+  intros Hin. apply (cancel_all_swaps_only_flagged st NC_GET_REQ_ALL ids stat0 t) in Hin.
+  - destruct Hin as [[H|H] _]; vm_compute in H; discriminate H.
+  - reflexivity.
+Qed.
+
+Example cancel_all_ex :
+  wr_ev (cancel ex_cp_st NC_PUT_REQ_ALL [] []) =
+    [EvSwapBack 7; EvPutDone 7; EvSwapBack 8; EvPutDone 8; EvPutDone 9] /\
+  put_lead (wr_st (cancel ex_cp_st NC_REQ_ALL [] [])) = [].
+Proof. split; vm_compute; reflexivity. Qed.
+
+(* ---------- cancel by request ids ---------- *)
+(* the first put lead with id x has tag t and swap flag s *)
+Fixpoint first_put (pl : list lead) (x t : Z) (s : bool) : Prop :=
+  match pl with
+  | [] => False
+  | l :: r => if l_id l =? x then l_tag l = t /\ l_swapbuf l = s else first_put r x t s
+  end.
+
+Lemma first_put_intro pre l post :
+  Forall (fun l' => l_id l' <> l_id l) pre ->
+  first_put (pre ++ l :: post) (l_id l) (l_tag l) (l_swapbuf l).
+Proof.
+  induction 1 as [|a pre Ha Hpre IH]; cbn [app first_put].
+  - rewrite Z.eqb_refl. split; reflexivity.
+  - destruct (Z.eqb_spec (l_id a) (l_id l)); [contradiction|exact IH].
+Qed.
+
+Lemma first_put_shift (f : lead -> Z) pl x t s :
+  first_put (map (fun l' => l_set_off l' (f l')) pl) x t s <-> first_put pl x t s.
+Proof.
+  induction pl as [|a pl IH]; cbn [map first_put]; [tauto|].
+  cbn [l_set_off l_id l_tag l_swapbuf]. destruct (l_id a =? x); [tauto|exact IH].
+Qed.
+
+Lemma remove_lead_first pl x t s : first_put pl x t s -> x <> NC_REQ_NULL ->
+  exists pl' l, remove_lead pl x = Some (pl', l) /\ l_tag l = t /\ l_swapbuf l = s.
+Proof.
+  induction pl as [|a pl IH]; cbn [first_put remove_lead]; [intros []|].
+  destruct (Z.eqb_spec (l_id a) x) as [Ea|Ea].
+  - intros [Ht Hs] Hx. replace (negb (l_id a =? NC_REQ_NULL)) with true by lia. cbn [andb].
+    eexists _, _. split; [reflexivity|split; assumption].
+  - intros Hf Hx. rewrite andb_false_r. destruct (IH Hf Hx) as (pl' & l & E & Ht & Hs).
+    rewrite E. eexists _, _. split; [reflexivity|split; assumption].
+Qed.
+
+Lemma remove_lead_other pl x t s y : forall pl' f,
+  first_put pl x t s -> y <> x -> remove_lead pl y = Some (pl', f) -> first_put pl' x t s.
+Proof.
+  induction pl as [|a pl IH]; intros pl' f; cbn [first_put remove_lead]; [intros []|].
+  destruct (negb (l_id a =? NC_REQ_NULL) && (l_id a =? y)) eqn:Em.
+  - intros Hf Hne H. inversion H; subst; clear H.
+    destruct (Z.eqb_spec (l_id f) x) as [Ea|Ea]; [lia|].
+    apply first_put_shift. exact Hf.
+  - destruct (remove_lead pl y) as [[r' f']|] eqn:Er; intros Hf Hne H; [|discriminate H].
+    inversion H; subst; clear H. cbn [first_put].
+    destruct (l_id a =? x); [exact Hf|]. eapply IH; eauto.
+Qed.
+
+Lemma remove_lead_sim pl x : forall pl' f, remove_lead pl x = Some (pl', f) ->
+  In f pl /\ l_id f = x /\ x <> NC_REQ_NULL /\
+  forall l', In l' pl' -> exists l, In l pl /\ l_id l = l_id l' /\ l_tag l = l_tag l' /\ l_swapbuf l = l_swapbuf l'.
+Proof.
+  induction pl as [|a pl IH]; intros pl' f; cbn [remove_lead]; [discriminate|].
+  destruct (negb (l_id a =? NC_REQ_NULL) && (l_id a =? x)) eqn:Em.
+  - intros H. inversion H; subst; clear H.
+    split; [now left|]. split; [lia|]. split; [lia|].
+    intros l' Hl'. apply in_map_iff in Hl'. destruct Hl' as (l0 & <- & Hl0).
+    exists l0. split; [now right|]. cbn [l_set_off l_id l_tag l_swapbuf]. repeat split.
+  - destruct (remove_lead pl x) as [[r' f']|] eqn:Er; intros H; [|discriminate H].
+    inversion H; subst; clear H.
+    destruct (IH _ _ eq_refl) as (Hin & Hid & Hx & Hsim).
+    split; [now right|]. split; [exact Hid|]. split; [exact Hx|].
+    intros l' [<-|Hl'].
+    + exists a. split; [now left|]. repeat split.
+    + destruct (Hsim l' Hl') as (l & Hl & H1 & H2 & H3). exists l. split; [now right|]. auto.
+Qed.
+
+Definition cres := (nbstate * list Z * list Z * Z * list event)%type.
+Definition c_st (r : cres) : nbstate := fst (fst (fst (fst r))).
+Definition c_ev (r : cres) : list event := snd r.
+
+Ltac cancel_step :=
+  match goal with |- context [cancel_ids ?a ?b ?c ?d ?e ?f] =>
+    let E := fresh "E" in
+    destruct (cancel_ids a b c d e f) as [[[[?q1 ?q2] ?q3] ?q4] ?q5] eqn:E;
+    eexists _, _, _, _;
+    split; [symmetry; exact (f_equal c_st E)|];
+    split; [symmetry; exact (f_equal c_ev E)|]
+  end.
+
+(* one step of the loop of ncmpio_cancel, as far as the put queue and the events go *)
+Lemma cancel_ids_cons st x r i stat rc ev :
+  exists st1 stat1 rc1 ev1,
+    c_st (cancel_ids st (x :: r) i stat rc ev) = c_st (cancel_ids st1 r (i + 1) stat1 rc1 ev1) /\
+    c_ev (cancel_ids st (x :: r) i stat rc ev) = c_ev (cancel_ids st1 r (i + 1) stat1 rc1 ev1) /\
+    ((put_lead st1 = put_lead st /\ (ev1 = ev \/ exists tg, ev1 = ev ++ [EvGetCancelled tg]) /\
+      (x = NC_REQ_NULL \/ Z.land x 1 = 1 \/ remove_lead (put_lead st) x = None)) \/
+     (x <> NC_REQ_NULL /\ Z.land x 1 <> 1 /\
+      exists pl l, remove_lead (put_lead st) x = Some (pl, l) /\ put_lead st1 = pl /\
+        ev1 = ev ++ (if l_swapbuf l then [EvSwapBack (l_tag l)] else []) ++ [EvPutDone (l_tag l)])).
+Proof.
+  cbn [cancel_ids].
+  destruct (Z.eqb_spec x NC_REQ_NULL) as [Hx|Hx].
+  { cancel_step. left. split; [reflexivity|]. split; [now left|now left]. }
+  destruct (Z.eqb_spec (Z.land x 1) 1) as [Hodd|Hodd].
+  { destruct (remove_lead (get_lead st) x) as [[gl l]|].
+    - cancel_step. left. split; [reflexivity|]. split; [right; eexists; reflexivity|right; now left].
+    - cancel_step. left. split; [reflexivity|]. split; [now left|right; now left]. }
+  destruct (remove_lead (put_lead st) x) as [[pl l]|] eqn:Er.
+  - cancel_step. right. split; [exact Hx|]. split; [exact Hodd|]. exists pl, l.
+    split; [reflexivity|]. split; reflexivity.
+  - cancel_step. left. split; [reflexivity|]. split; [now left|right; now right].
+Qed.
+
+Lemma cancel_ids_nil st i stat rc ev : c_ev (cancel_ids st [] i stat rc ev) = ev /\ c_st (cancel_ids st [] i stat rc ev) = st.
+Proof. split; reflexivity. Qed.
+
+Lemma cancel_ids_ev_incl ids : forall st i stat rc ev e,
+  In e ev -> In e (c_ev (cancel_ids st ids i stat rc ev)).
+Proof.
+  induction ids as [|x r IH]; intros st i stat rc ev e He; [exact He|].
+  destruct (cancel_ids_cons st x r i stat rc ev) as (st1 & stat1 & rc1 & ev1 & _ & Eev & Hc).
+  rewrite Eev. apply IH.
+  destruct Hc as [(_ & Hev & _)|(_ & _ & pl & l & _ & _ & Hev)].
+  - destruct Hev as [->|(tg & ->)]; [exact He|]. apply in_or_app. now left.
+  - subst ev1. apply in_or_app. now left.
+Qed.
+
+Lemma cancel_ids_swaps_back_gen ids : forall st i stat rc ev x t s,
+  first_put (put_lead st) x t s -> In x ids -> x <> NC_REQ_NULL -> Z.land x 1 <> 1 ->
+  In (EvPutDone t) (c_ev (cancel_ids st ids i stat rc ev)) /\
+  (s = true -> In (EvSwapBack t) (c_ev (cancel_ids st ids i stat rc ev))).
+Proof.
+  induction ids as [|a r IH]; intros st i stat rc ev x t s Hf Hin Hx Hodd; [destruct Hin|].
+  destruct (cancel_ids_cons st a r i stat rc ev) as (st1 & stat1 & rc1 & ev1 & _ & Eev & Hc).
+  rewrite Eev.
+  destruct Hc as [(Hpl & _ & Hwhy)|(Ha & Hao & pl & l & Er & Hpl & Hev)].
+  - assert (Hne : a <> x).
+    { intros ->. destruct Hwhy as [H|[H|H]]; [contradiction|contradiction|].
+      destruct (remove_lead_first _ _ _ _ Hf Hx) as (pl' & l' & E & _). congruence. }
+    destruct Hin as [Hin|Hin]; [contradiction|].
+    apply (IH st1 (i + 1) stat1 rc1 ev1 x t s); try assumption. now rewrite Hpl.
+  - destruct (Z.eq_dec a x) as [->|Hne].
+    + destruct (remove_lead_first _ _ _ _ Hf Hx) as (pl' & l' & E & Ht & Hs).
+      rewrite E in Er. inversion Er; subst pl' l'. clear Er.
+      split; [|intros Hst]; apply cancel_ids_ev_incl; rewrite Hev.
+      * apply in_or_app. right. apply in_or_app. right. rewrite Ht. now left.
+      * apply in_or_app. right. apply in_or_app. left. rewrite Hs, Hst, Ht. now left.
+    + destruct Hin as [Hin|Hin]; [contradiction|].
+      apply (IH st1 (i + 1) stat1 rc1 ev1 x t s); try assumption. rewrite Hpl.
+      eapply remove_lead_other; [exact Hf| |exact Er]. exact Hne.
+Qed.
+
+Lemma cancel_ids_swaps_only_gen ids : forall st i stat rc ev t,
+  In (EvSwapBack t) (c_ev (cancel_ids st ids i stat rc ev)) ->
+  In (EvSwapBack t) ev \/
+  exists l, In l (put_lead st) /\ l_swapbuf l = true /\ l_tag l = t /\ In (l_id l) ids /\ l_id l <> NC_REQ_NULL.
+Proof.
+  induction ids as [|a r IH]; intros st i stat rc ev t Hin; [now left|].
+  destruct (cancel_ids_cons st a r i stat rc ev) as (st1 & stat1 & rc1 & ev1 & _ & Eev & Hc).
+  rewrite Eev in Hin. apply IH in Hin.
+  destruct Hc as [(Hpl & Hev & _)|(Ha & Hao & pl & l & Er & Hpl & Hev)].
+  - destruct Hin as [Hin|(l' & Hl' & Hs & Ht & Hid & Hnn)].
+    + destruct Hev as [->|(tg & ->)]; [now left|].
+      apply in_app_or in Hin. destruct Hin as [Hin|[Hin|[]]]; [now left|discriminate Hin].
+    + right. exists l'. rewrite Hpl in Hl'. split; [exact Hl'|]. split; [exact Hs|]. split; [exact Ht|].
+      split; [now right|exact Hnn].
+  - destruct (remove_lead_sim _ _ _ _ Er) as (Hlin & Hlid & _ & Hsim).
+    destruct Hin as [Hin|(l' & Hl' & Hs & Ht & Hid & Hnn)].
+    + rewrite Hev in Hin. apply in_app_or in Hin. destruct Hin as [Hin|Hin]; [now left|].
+      right. exists l. apply in_app_or in Hin. destruct Hin as [Hin|[Hin|[]]]; [|discriminate Hin].
+      destruct (l_swapbuf l) eqn:Hs; [|destruct Hin]. destruct Hin as [Hin|[]]. inversion Hin.
+      split; [exact Hlin|]. split; [reflexivity|]. split; [reflexivity|].
+      split; [left; now symmetry|congruence].
+    + right. rewrite Hpl in Hl'. destruct (Hsim l' Hl') as (l0 & Hl0 & H1 & H2 & H3).
+      exists l0. split; [exact Hl0|]. split; [congruence|]. split; [congruence|].
+      split; [right; congruence|congruence].
+Qed.
+
+Lemma cancel_pos_ev st num_req ids stat0 : 0 < num_req ->
+  wr_ev (cancel st num_req ids stat0) = c_ev (cancel_ids st ids 0 stat0 NC_NOERR []).
+Proof.
+  intros Hn. unfold cancel.
+  replace (num_req =? 0) with false by lia.
+  replace (num_req <? NC_PUT_REQ_ALL) with false by (unfold NC_PUT_REQ_ALL; lia).
+  replace (num_req <? 0) with false by lia.
+  destruct (cancel_ids st ids 0 stat0 NC_NOERR []) as [[[[q1 q2] q3] q4] q5]. reflexivity.
+Qed.
+
+(* a put lead that is the first of the queue with its id, whose id is named in req_ids, is
+   cancelled: it leaves the queue (EvPutDone) and the caller's buffer is swapped back if flagged *)
+Theorem cancel_ids_swaps_back : forall st num_req ids stat0 pre l post,
+  0 < num_req -> put_lead st = pre ++ l :: post -> Forall (fun l' => l_id l' <> l_id l) pre ->
+  In (l_id l) ids -> l_id l <> NC_REQ_NULL -> Z.land (l_id l) 1 <> 1 ->
+  In (EvPutDone (l_tag l)) (wr_ev (cancel st num_req ids stat0)) /\
+  (l_swapbuf l = true -> In (EvSwapBack (l_tag l)) (wr_ev (cancel st num_req ids stat0))).
+Proof.
+  intros st num_req ids stat0 pre l post Hn Hpl Hpre Hin Hx Hodd.
+  rewrite cancel_pos_ev by exact Hn.
+  apply (cancel_ids_swaps_back_gen ids st 0 stat0 NC_NOERR [] (l_id l) (l_tag l) (l_swapbuf l)); try assumption.
+  rewrite Hpl. now apply first_put_intro.
+Qed.
+
+Theorem cancel_ids_swaps_only_flagged : forall st num_req ids stat0 t,
+  0 < num_req -> In (EvSwapBack t) (wr_ev (cancel st num_req ids stat0)) ->
+  exists l, In l (put_lead st) /\ l_swapbuf l = true /\ l_tag l = t /\ In (l_id l) ids /\ l_id l <> NC_REQ_NULL.
+Proof.
+  intros st num_req ids stat0 t Hn Hin. rewrite cancel_pos_ev in Hin by exact Hn.
+  apply cancel_ids_swaps_only_gen in Hin. destruct Hin as [[]|H]. exact H.
+Qed.
+
+Example cancel_ids_ex :
+  wr_ev (cancel ex_cp_st 2 [4; 0] [0; 0]) = [EvPutDone 9; EvSwapBack 7; EvPutDone 7] /\
+  map l_tag (put_lead (wr_st (cancel ex_cp_st 2 [4; 0] [0; 0]))) = [8] /\
+  put_lead ex_cp_st = [] ++ ex_lead 0 (-1) 7 true true :: [ex_lead 2 (-1) 8 false true; ex_lead 4 (-1) 9 true false].
+Proof. repeat split; vm_compute; reflexivity. Qed.
+
+(* ---------- cancel by ids: what stays, what leaves ---------- *)
+Lemma l_set_off_self l : l_set_off l (l_nonlead_off l) = l.
+Proof. destruct l; reflexivity. Qed.
+
+Lemma remove_lead_keeps pl y : forall pl' f, remove_lead pl y = Some (pl', f) ->
+  forall l, In l pl -> l_id l <> y -> exists off, In (l_set_off l off) pl'.
+Proof.
+  induction pl as [|a pl IH]; intros pl' f; cbn [remove_lead]; [discriminate|].
+  destruct (negb (l_id a =? NC_REQ_NULL) && (l_id a =? y)) eqn:Em.
+  - intros H l Hl Hne. inversion H; subst; clear H.
+    destruct Hl as [->|Hl]; [lia|].
+    eexists. apply in_map_iff. exists l. split; [reflexivity|exact Hl].
+  - destruct (remove_lead pl y) as [[r' f']|] eqn:Er; intros H l Hl Hne; [|discriminate H].
+    inversion H; subst; clear H. destruct Hl as [->|Hl].
+    + exists (l_nonlead_off l). left. symmetry. apply l_set_off_self.
+    + destruct (IH _ _ eq_refl l Hl Hne) as (off & Hoff). exists off. now right.
+Qed.
+
+Lemma cancel_ids_keeps_gen ids : forall st i stat rc ev l,
+  In l (put_lead st) -> ~ In (l_id l) ids ->
+  exists off, In (l_set_off l off) (put_lead (c_st (cancel_ids st ids i stat rc ev))).
+Proof.
+  induction ids as [|a r IH]; intros st i stat rc ev l Hl Hni.
+  - exists (l_nonlead_off l). rewrite l_set_off_self. exact Hl.
+  - destruct (cancel_ids_cons st a r i stat rc ev) as (st1 & stat1 & rc1 & ev1 & Est & _ & Hc).
+    rewrite Est.
+    assert (Hne : l_id l <> a) by (intros E; apply Hni; left; now symmetry).
+    assert (Hnr : ~ In (l_id l) r) by (intros E; apply Hni; now right).
+    destruct Hc as [(Hpl & _ & _)|(_ & _ & pl & f & Er & Hpl & _)].
+    + apply IH; [now rewrite Hpl|exact Hnr].
+    + destruct (remove_lead_keeps _ _ _ _ Er l Hl Hne) as (off & Hoff).
+      rewrite <- Hpl in Hoff.
+      destruct (IH st1 (i + 1) stat1 rc1 ev1 (l_set_off l off) Hoff Hnr) as (off' & Hoff').
+      exists off'. exact Hoff'.
+Qed.
+
+Lemma cancel_pos_put_lead st num_req ids stat0 : 0 < num_req ->
+  put_lead (wr_st (cancel st num_req ids stat0)) = put_lead (c_st (cancel_ids st ids 0 stat0 NC_NOERR [])).
+Proof.
+  intros Hn. unfold cancel.
+  replace (num_req =? 0) with false by lia.
+  replace (num_req <? NC_PUT_REQ_ALL) with false by (unfold NC_PUT_REQ_ALL; lia).
+  replace (num_req <? 0) with false by lia.
+  destruct (cancel_ids st ids 0 stat0 NC_NOERR []) as [[[[q1 q2] q3] q4] q5]. reflexivity.
+Qed.
+
+(* a put lead whose id is not named stays pending, untouched except for its position in the
+   non-lead queue (in particular it keeps its swap flag, buffer address and pool index) *)
+Theorem cancel_ids_keeps_unnamed : forall st num_req ids stat0 l,
+  0 < num_req -> In l (put_lead st) -> ~ In (l_id l) ids ->
+  exists off, In (l_set_off l off) (put_lead (wr_st (cancel st num_req ids stat0))).
+Proof.
+  intros st num_req ids stat0 l Hn Hl Hni. rewrite cancel_pos_put_lead by exact Hn.
+  now apply cancel_ids_keeps_gen.
+Qed.
+
+(* number of put leads carrying id x *)
+Definition nid (pl : list lead) (x : Z) : Z := Zlen (filter (fun l => l_id l =? x) pl).
+
+Lemma nid_nonneg pl x : 0 <= nid pl x.
+Proof. apply Zlen_nonneg. Qed.
+
+Lemma nid_cons a pl x : nid (a :: pl) x = (if l_id a =? x then 1 else 0) + nid pl x.
+Proof. unfold nid. cbn [filter]. destruct (l_id a =? x); [rewrite Zlen_cons|]; lia. Qed.
+
+Lemma nid_shift (f : lead -> Z) pl x : nid (map (fun l' => l_set_off l' (f l')) pl) x = nid pl x.
+Proof.
+  induction pl as [|a pl IH]; [reflexivity|]. cbn [map]. rewrite !nid_cons, IH. reflexivity.
+Qed.
+
+Lemma nid_zero_absent pl x : nid pl x = 0 -> forall l, In l pl -> l_id l <> x.
+Proof.
+  induction pl as [|a pl IH]; intros Hz l Hl; [destruct Hl|].
+  rewrite nid_cons in Hz. pose proof (nid_nonneg pl x) as Hnn.
+  destruct (Z.eqb_spec (l_id a) x) as [Ea|Ea]; [lia|].
+  destruct Hl as [->|Hl]; [exact Ea|]. apply IH; [lia|exact Hl].
+Qed.
+
+Lemma remove_lead_nid pl y x : forall pl' f, remove_lead pl y = Some (pl', f) ->
+  nid pl' x = nid pl x - (if y =? x then 1 else 0).
+Proof.
+  induction pl as [|a pl IH]; intros pl' f; cbn [remove_lead]; [discriminate|].
+  destruct (negb (l_id a =? NC_REQ_NULL) && (l_id a =? y)) eqn:Em.
+  - intros H. inversion H; subst; clear H. rewrite nid_shift, nid_cons.
+    assert (Ef : l_id f = y) by lia. rewrite Ef. lia.
+  - destruct (remove_lead pl y) as [[r' f']|] eqn:Er; intros H; [|discriminate H].
+    inversion H; subst; clear H. rewrite !nid_cons. rewrite (IH _ _ eq_refl). lia.
+Qed.
+
+Lemma remove_lead_none_nid pl x : x <> NC_REQ_NULL -> remove_lead pl x = None -> nid pl x = 0.
+Proof.
+  intros Hx. induction pl as [|a pl IH]; cbn [remove_lead]; [reflexivity|].
+  destruct (negb (l_id a =? NC_REQ_NULL) && (l_id a =? x)) eqn:Em; [discriminate|].
+  destruct (remove_lead pl x) as [[r' f']|]; [discriminate|]. intros _.
+  rewrite nid_cons, IH by reflexivity. destruct (Z.eqb_spec (l_id a) x) as [Ea|Ea]; lia.
+Qed.
+
+Lemma cancel_ids_nid_le ids : forall st i stat rc ev x,
+  nid (put_lead (c_st (cancel_ids st ids i stat rc ev))) x <= nid (put_lead st) x.
+Proof.
+  induction ids as [|a r IH]; intros st i stat rc ev x; [cbn; lia|].
+  destruct (cancel_ids_cons st a r i stat rc ev) as (st1 & stat1 & rc1 & ev1 & Est & _ & Hc).
+  rewrite Est. specialize (IH st1 (i + 1) stat1 rc1 ev1 x).
+  destruct Hc as [(Hpl & _ & _)|(_ & _ & pl & f & Er & Hpl & _)].
+  - now rewrite <- Hpl.
+  - rewrite Hpl in IH. rewrite (remove_lead_nid _ _ x _ _ Er) in IH.
+    destruct (a =? x); lia.
+Qed.
+
+Lemma cancel_ids_removes_gen ids : forall st i stat rc ev x,
+  nid (put_lead st) x <= 1 -> In x ids -> x <> NC_REQ_NULL -> Z.land x 1 <> 1 ->
+  nid (put_lead (c_st (cancel_ids st ids i stat rc ev))) x = 0.
+Proof.
+  induction ids as [|a r IH]; intros st i stat rc ev x Hle Hin Hx Hodd; [destruct Hin|].
+  destruct (cancel_ids_cons st a r i stat rc ev) as (st1 & stat1 & rc1 & ev1 & Est & _ & Hc).
+  rewrite Est.
+  pose proof (cancel_ids_nid_le r st1 (i + 1) stat1 rc1 ev1 x) as Hmono.
+  pose proof (nid_nonneg (put_lead (c_st (cancel_ids st1 r (i + 1) stat1 rc1 ev1))) x) as Hnn.
+  destruct (Z.eq_dec a x) as [->|Hne].
+  - destruct Hc as [(Hpl & _ & Hwhy)|(_ & _ & pl & f & Er & Hpl & _)].
+    + destruct Hwhy as [H|[H|H]]; [contradiction|contradiction|].
+      rewrite Hpl in Hmono. rewrite (remove_lead_none_nid _ _ Hx H) in Hmono. lia.
+    + rewrite Hpl in Hmono. rewrite (remove_lead_nid _ _ x _ _ Er), Z.eqb_refl in Hmono. lia.
+  - destruct Hin as [Hin|Hin]; [contradiction|].
+    apply IH; try assumption.
+    destruct Hc as [(Hpl & _ & _)|(_ & _ & pl & f & Er & Hpl & _)].
+    + now rewrite Hpl.
+    + rewrite Hpl, (remove_lead_nid _ _ x _ _ Er).
+      destruct (Z.eqb_spec a x); lia.
+Qed.
+
+(* a named put request (valid even id carried by exactly one lead) is no longer in the queue *)
+Theorem cancel_ids_removes_named : forall st num_req ids stat0 pre l post,
+  0 < num_req -> put_lead st = pre ++ l :: post ->
+  Forall (fun l' => l_id l' <> l_id l) pre -> Forall (fun l' => l_id l' <> l_id l) post ->
+  In (l_id l) ids -> l_id l <> NC_REQ_NULL -> Z.land (l_id l) 1 <> 1 ->
+  forall l', In l' (put_lead (wr_st (cancel st num_req ids stat0))) -> l_id l' <> l_id l.
+Proof.
+  intros st num_req ids stat0 pre l post Hn Hpl Hpre Hpost Hin Hx Hodd.
+  rewrite cancel_pos_put_lead by exact Hn.
+  apply nid_zero_absent. apply cancel_ids_removes_gen; try assumption.
+  rewrite Hpl. unfold nid. rewrite filter_app. cbn [filter]. rewrite Z.eqb_refl.
+  assert (Hz : forall q, Forall (fun l' => l_id l' <> l_id l) q -> filter (fun l0 => l_id l0 =? l_id l) q = []).
+  { induction 1 as [|b q Hb Hq IHq]; cbn [filter]; [reflexivity|].
+    destruct (Z.eqb_spec (l_id b) (l_id l)); [contradiction|exact IHq]. }
+  rewrite (Hz pre Hpre), (Hz post Hpost). cbn. lia.
+Qed.
+
+(* ---------- close with pending requests ---------- *)
+Theorem close_pending_swaps_back : forall st l, In l (put_lead st) -> l_swapbuf l = true ->
+  In (EvSwapBack (l_tag l)) (wr_ev (close_pending st)).
+Proof.
+  intros st l Hl Hs. unfold close_pending. cbn [wr_ev]. apply in_or_app. right.
+  set (r1 := if 0 <? Zlen (get_lead st) then cancel st NC_GET_REQ_ALL [] [] else mkwr st NC_NOERR [] [] []).
+  assert (Hpl : put_lead (wr_st r1) = put_lead st).
+  { unfold r1. destruct (0 <? Zlen (get_lead st)); reflexivity. }
+  rewrite Hpl.
+  assert (Hpos : 0 <? Zlen (put_lead st) = true).
+  { destruct (put_lead st) as [|a pl]; [destruct Hl|]. rewrite Zlen_cons. pose proof (Zlen_nonneg pl). lia. }
+  rewrite Hpos.
+  destruct (cancel_all_swaps_back (wr_st r1) NC_PUT_REQ_ALL [] [] (or_introl eq_refl)) as [_ H].
+  rewrite Hpl in H. destruct (H l Hl) as [_ H2]. now apply H2.
+Qed.
+
+Example close_pending_ex :
+  wr_ev (close_pending ex_cp_st) = [EvSwapBack 7; EvPutDone 7; EvSwapBack 8; EvPutDone 8; EvPutDone 9] /\
+  wr_rc (close_pending ex_cp_st) = NC_EPENDING.
+Proof. split; vm_compute; reflexivity. Qed.
+
+(* ====================================================================== *)
+(* B4. a bput copies the data into the pool at posting time                *)
+(* ====================================================================== *)
+Lemma map_zseq_znth (bs : list byte) : forall o (f : Z -> byte),
+  (forall i, 0 <= i < Zlen bs -> f (o + i) = znth bs i 0) -> map f (zseq o (length bs)) = bs.
+Proof.
+  induction bs as [|b bs IH]; intros o f H; cbn [length zseq map]; [reflexivity|].
+  pose proof (Zlen_nonneg bs) as Hnn. f_equal.
+  - specialize (H 0). rewrite Z.add_0_r in H. rewrite H; [reflexivity|rewrite Zlen_cons; lia].
+  - apply IH. intros i Hi. replace (o + 1 + i) with (o + (i + 1)) by lia.
+    rewrite H by (rewrite Zlen_cons; lia). rewrite znth_cons_nz by lia. f_equal. lia.
+Qed.
+
+Lemma dk_read_write_same d o bs : dk_read (dk_write d o bs) o (Zlen bs) = bs.
+Proof.
+  unfold dk_read, zrange. unfold Zlen at 1. rewrite Nat2Z.id. apply map_zseq_znth.
+  intros i Hi. rewrite dk_get_write.
+  replace ((o <=? o + i) && (o + i <? o + Zlen bs)) with true by lia. f_equal. lia.
+Qed.
+
+Lemma post_varm_zero st g start count stride xaddr data sw tag a :
+  st_abuf st = Some a -> zprod count * g_xsz g = 0 ->
+  post_varm st KBput g start count stride xaddr data sw tag = (st, NC_REQ_NULL, NC_NOERR).
+Proof. intros Hab Hz. unfold post_varm. rewrite Hab. cbv zeta. rewrite Hz. reflexivity. Qed.
+
+Theorem bput_captures_at_post : forall st g start count stride xaddr data sw tag st' id a,
+  st_abuf st = Some a -> ab_wf a ->
+  post_varm st KBput g start count stride xaddr data sw tag = (st', id, NC_NOERR) ->
+  id <> NC_REQ_NULL -> Zlen data = zprod count * g_xsz g ->
+  exists l, In l (put_lead st') /\ l_id l = id /\ l_xaddr l = ABUF_BASE + ab_used a /\
+            0 <= l_abuf_index l /\
+            dk_read (st_mem st') (l_xaddr l) (Zlen data) = data /\
+            ABUF_BASE <= l_xaddr l /\ l_xaddr l + Zlen data <= ABUF_BASE + ab_alloc a.
+Proof.
+  intros st g start count stride xaddr data sw tag st' id a Hab Hwf Hpost Hid Hlen.
+  assert (Hnz : zprod count * g_xsz g <> 0).
+  { intros Hz. rewrite (post_varm_zero _ _ _ _ _ _ _ _ _ _ Hab Hz) in Hpost.
+    apply (f_equal (fun r => snd (fst r))) in Hpost. cbv beta in Hpost. cbn [fst snd] in Hpost. congruence. }
+  pose proof (ab_wf_used_nonneg a Hwf) as Hnn.
+  destruct (post_varm_bput_cases st g start count stride xaddr data sw tag a Hab Hnz)
+    as [(Hi & E)|(Hi & pl & pr & id0 & l & E & Hl & Hlid & Hlx & Hli & _)]; rewrite E in Hpost.
+  - apply (f_equal snd) in Hpost. cbn [snd] in Hpost. vm_compute in Hpost. discriminate Hpost.
+  - pose proof (f_equal (fun r => fst (fst r)) Hpost) as Hst.
+    pose proof (f_equal (fun r => snd (fst r)) Hpost) as Hid0.
+    cbv beta in Hst, Hid0. cbn [fst snd] in Hst, Hid0. clear Hpost. subst st'. rewrite Hid0 in Hlid.
+    exists l. cbn [put_lead st_mem].
+    unfold abuf_insufficient in Hi.
+    split; [exact Hl|]. split; [exact Hlid|]. split; [exact Hlx|].
+    split; [rewrite Hli; apply Zlen_nonneg|].
+    split; [rewrite Hlx; apply dk_read_write_same|].
+    rewrite Hlx. split; lia.
+Qed.
+
+Example bput_captures_ex :
+  let st := ex_st (mkabuf 32 16 [(true, 16)]) in
+  let r := post_varm st KBput ex_geom [0] [3] None 0 [1;2;3;4;5;6;7;8;9;10;11;12] false 5 in
+  ab_wf (mkabuf 32 16 [(true, 16)]) /\ snd r = NC_NOERR /\ snd (fst r) = 0 /\
+  dk_read (st_mem (fst (fst r))) (ABUF_BASE + 16) 12 = [1;2;3;4;5;6;7;8;9;10;11;12] /\
+  map l_abuf_index (put_lead (fst (fst r))) = [1].
+Proof.
+  cbv zeta. split; [|repeat split; vm_compute; reflexivity].
+  unfold ab_wf. cbn. repeat split; [repeat constructor; cbn; lia|lia].
+Qed.
+
+Lemma post_varn_zero st g parts xaddr data sw tag a :
+  st_abuf st = Some a -> varn_nbytes g parts = 0 ->
+  post_varn st KBput g parts xaddr data sw tag = (st, NC_REQ_NULL, NC_NOERR).
+Proof.
+  intros Hab Hz. unfold post_varn. rewrite Hab. cbv zeta. unfold varn_nbytes in Hz. rewrite Hz. reflexivity.
+Qed.
+
+Theorem bput_varn_captures_at_post : forall st g parts xaddr data sw tag st' id a,
+  st_abuf st = Some a -> ab_wf a ->
+  post_varn st KBput g parts xaddr data sw tag = (st', id, NC_NOERR) ->
+  id <> NC_REQ_NULL -> Zlen data = varn_nbytes g parts ->
+  exists l, In l (put_lead st') /\ l_id l = id /\ l_xaddr l = ABUF_BASE + ab_used a /\
+            0 <= l_abuf_index l /\
+            dk_read (st_mem st') (l_xaddr l) (Zlen data) = data /\
+            ABUF_BASE <= l_xaddr l /\ l_xaddr l + Zlen data <= ABUF_BASE + ab_alloc a.
+Proof.
+  intros st g parts xaddr data sw tag st' id a Hab Hwf Hpost Hid Hlen.
+  assert (Hnz : varn_nbytes g parts <> 0).
+  { intros Hz. rewrite (post_varn_zero _ _ _ _ _ _ _ _ Hab Hz) in Hpost.
+    apply (f_equal (fun r => snd (fst r))) in Hpost. cbv beta in Hpost. cbn [fst snd] in Hpost. congruence. }
+  pose proof (ab_wf_used_nonneg a Hwf) as Hnn.
+  destruct (post_varn_bput_cases st g parts xaddr data sw tag a Hab Hnz)
+    as [(Hi & E)|(Hi & pl & pr & id0 & l & E & Hl & Hlid & Hlx & Hli & _)]; rewrite E in Hpost.
+  - apply (f_equal snd) in Hpost. cbn [snd] in Hpost. vm_compute in Hpost. discriminate Hpost.
+  - pose proof (f_equal (fun r => fst (fst r)) Hpost) as Hst.
+    pose proof (f_equal (fun r => snd (fst r)) Hpost) as Hid0.
+    cbv beta in Hst, Hid0. cbn [fst snd] in Hst, Hid0. clear Hpost. subst st'. rewrite Hid0 in Hlid.
+    exists l. cbn [put_lead st_mem].
+    unfold abuf_insufficient in Hi.
+    split; [exact Hl|]. split; [exact Hlid|]. split; [exact Hlx|].
+    split; [rewrite Hli; apply Zlen_nonneg|].
+    split; [rewrite Hlx; apply dk_read_write_same|].
+    rewrite Hlx. split; lia.
+Qed.
